@@ -165,7 +165,7 @@ class DateTimestampProvider(MorphingProvider):
                 if data is None:
                     raise TypeLoadError(Union[int, float], data)
 
-                return date.fromtimestamp(data)  # noqa: DTZ012
+                return datetime.fromtimestamp(data, tz=timezone.utc).date()  # the dumper emits midnight UTC
             except TypeError:
                 raise TypeLoadError(Union[int, float], data)
             except ValueError:
@@ -178,7 +178,7 @@ class DateTimestampProvider(MorphingProvider):
 
         def pydate_timestamp_loader(data):
             try:
-                return date.fromtimestamp(data)  # noqa: DTZ012
+                return datetime.fromtimestamp(data, tz=timezone.utc).date()  # the dumper emits midnight UTC
             except TypeError:
                 raise TypeLoadError(Union[int, float], data)
             except (OverflowError, OSError):
